@@ -107,3 +107,98 @@ def run_ser(prop, tier, seed, scratch, check):
     if not q:
         cov["exhaustive_note"] = "all 1,112,064 Unicode scalar values as value and key; float64 is sampled"
     return cov, violations
+
+
+SPELLINGS = ["raw", "short", "ulow", "uup", "mixed"]
+NUMLIT_ALL = ["int", "negzero", "intmax", "intmin", "intover", "frac", "exp", "big", "tiny", "round"]
+
+
+def simple_run(prop, scratch, name, c0, vh_args, label, cov, violations, count_key="tlc_documents"):
+    vh = build_harness(scratch)
+    res, c = run_tlc_docs(scratch, name, c0)
+    cov["states"] += res["states"]
+    cov["transitions"] += res["transitions"]
+    out = scratch.path("%s-%s.json" % (label, name))
+    rc, so, se, wall = run_vh(vh, vh_args(res["out_path"]) + ["-out", out, "-replaydir", scratch.sub("replays")], 3600)
+    s = json.load(open(out))
+    log("[%s] %s: %s TLC records, %d evaluations, %d distinct, %.1fs" % (label, name, s.get(count_key), s["evaluations"], s["distinct"], wall))
+    cov["traces_validated_against_impl"] += int(s.get(count_key) or 0) * int(s.get("picks", 1) or 1)
+    cov["evaluations"] += s["evaluations"]
+    cov["distinct_nontrivial"] += s["distinct"]
+    entry = dict(name=name, constants={k: c[k] for k in ("maxtoks", "maxdepth", "maxwidth", "wsbudget", "taillen")}, tlc_states=res["states"],
+                 tlc_transitions=res["transitions"], invariants=c["invariants"])
+    for k, v in s.items():
+        if k not in ("samples", "violations", "evaluations", "distinct"):
+            entry[k] = v
+    cov["configs"].append(entry)
+    cov["samples"] += (s.get("samples") or [])[:3]
+    for v in (s.get("violations") or []):
+        v["config"] = name
+        violations.append(v)
+    try:
+        os.remove(res["out_path"])
+    except OSError:
+        pass
+
+
+def run_parse(prop, tier, seed, scratch):
+    """C03: every derivation of the JSON grammar inside the bounds, every gap with whitespace, every escape / number spelling."""
+    q = tier == "quick"
+    cov = new_cov("TLC enumerates every valid document (token sequence accepted by the JsonRef pushdown machine) inside the bounds: all shapes, "
+                  "whitespace tokens in every gap (budgeted), text before the root bracket, duplicate keys, one focus string/key over all "
+                  "(class x escape spelling) pairs and one focus number over all literal spellings; each is concretised (several members per class), "
+                  "validated by encoding/json and a strict RFC 8259 reader, parsed by ParseList/ParseObject (also with trailing text) and the result "
+                  "walked with TypeOf/Get against TLC's tree. Plus every code point in every escape spelling. "
+                  "distinct_nontrivial = distinct document texts + distinct code points.", "tlc MC.tla (spec/JsonText.tla) ; vh parse")
+    violations = []
+    strfocus = ["%s~%s" % (c, s) for c in STR_ALL if c != "long" for s in SPELLINGS]
+    base = dict(strbasic=["ascii~raw"], strfocus=strfocus, keybasic=["ascii~raw", "dup"], keyfocus=strfocus, numbasic=["int"], numfocus=NUMLIT_ALL,
+                lits=["null", "true", "false"], prekinds=["txt", "NL"], invariants=["TypeOK", "RefAgree"])
+    cfgs = [dict(base, name="valid-t7-ws1", maxtoks=8, maxdepth=2, wskinds=["SP", "NL", "TAB", "CR", "MIX"], wsbudget=1)]
+    if not q:
+        cfgs = [dict(base, name="valid-t9-ws2", maxtoks=10, maxdepth=3, wskinds=["SP", "NL", "TAB", "CR", "MIX"], wsbudget=2, tlc_timeout=1800)]
+    for c0 in cfgs:
+        simple_run(prop, scratch, "%s-%s" % (prop, c0["name"]), c0,
+                   lambda p: ["parse", "-in", p, "-prop", prop, "-seed", str(seed), "-picks", "2" if q else "3",
+                              "-codepoints", "sample" if q else "all"], "parse", cov, violations)
+    return cov, violations
+
+
+def run_total(prop, tier, seed, scratch):
+    """C04."""
+    q = tier == "quick"
+    cov = new_cov("(1) every byte string up to the length bound over a 16-byte alphabet (brackets, separators, quote, backslash, blank, newline, a digit, a letter, "
+                  "a stray character and three ill-formed UTF-8 bytes) and seeded random byte strings through ParseList and ParseObject: no panic, no hang "
+                  "(watchdog), exactly one of (container, error), same outcome twice; (2) every proper prefix of String() of every TLC-enumerated tree "
+                  "(and of random deep trees) must be rejected; (3) 18 kinds of ill-formed UTF-8 inserted at every byte position between the root brackets "
+                  "must be rejected; (4) ParseFile equals ParseObject on the same bytes, unreadable paths give an error. "
+                  "distinct_nontrivial = distinct byte strings + distinct documents.", "tlc MC.tla (spec/JsonText.tla) ; vh total")
+    violations = []
+    c0 = dict(name="docs7", maxtoks=7, maxdepth=2, strfocus=STR_ALL, keyfocus=STR_ALL, numfocus=["int1", "wholeFloat", "expBig", "frac"])
+    if not q:
+        c0 = dict(name="docs8", maxtoks=8, maxdepth=3, strfocus=STR_ALL, keyfocus=STR_ALL, numfocus=NUM_ALL)
+    simple_run(prop, scratch, "%s-%s" % (prop, c0["name"]), c0,
+               lambda p: ["total", "-in", p, "-prop", prop, "-seed", str(seed), "-strlen", "4" if q else "5",
+                          "-random", "20000" if q else "2000000", "-picks", "1" if q else "2"], "total", cov, violations)
+    return cov, violations
+
+
+def run_errline(prop, tier, seed, scratch):
+    """C20."""
+    q = tier == "quick"
+    cov = new_cov("TLC (JsonText, Mode = error) enumerates every viable document prefix inside the bounds (newline / blank tokens in every gap, text and newlines "
+                  "before the root bracket), injects one bad token (stray character, invalid literal, ';' for ':', unquoted key) at every position where it is "
+                  "an error, appends every tail of delimiters/newlines up to the tail bound, and computes the line of every token. For each text, if the real "
+                  "parser's error cites a line it must lie between the bad token and the delimiter terminating it, must be the line of the character the message "
+                  "names, and must equal the line of the byte the state machine was handling when it returned (verifStep hook). "
+                  "distinct_nontrivial = distinct texts.", "tlc MC.tla (spec/JsonText.tla, Mode=error) ; vh errline")
+    violations = []
+    base = dict(mode="error", strbasic=["ascii"], strfocus=[], numbasic=["int"], numfocus=[], lits=["null"], keybasic=["ascii"], keyfocus=[],
+                wskinds=["NL", "SP"], prekinds=["txt", "NL"], badkinds=["@", "lit", ";", "ukey"], invariants=["TypeOK"])
+    cfgs = [dict(base, name="err-t6", maxtoks=8, maxdepth=2, maxwidth=2, wsbudget=2, taillen=2)]
+    if not q:
+        cfgs = [dict(base, name="err-t8", maxtoks=10, maxdepth=3, maxwidth=2, wsbudget=3, taillen=3, tlc_timeout=1800)]
+    for c0 in cfgs:
+        simple_run(prop, scratch, "%s-%s" % (prop, c0["name"]), c0,
+                   lambda p: ["errline", "-in", p, "-prop", prop, "-seed", str(seed)], "errline", cov, violations, count_key="tlc_records")
+    return cov, violations
